@@ -118,6 +118,15 @@ func genC16(p *Plan, r *RNG) {
 			}
 		}
 	}
+	if r.Chance(1, 4) {
+		// peers named in the IPv4-mapped IPv6 notation in some requests: the same peers
+		for i := range p.Ops {
+			if k := p.Ops[i].Kind; (k == "connect" || k == "createperm") && r.Chance(1, 2) {
+				p.Ops[i].A.Flags = append(p.Ops[i].A.Flags, "mapped")
+			}
+		}
+		p.Flavor += "+mapped"
+	}
 	// liveness probe on every control connection at the end
 	for i := 0; i < nc; i++ {
 		p.Ops = append(p.Ops, Op{Actor: p.Clients[i].ID, Kind: "binding", At: gap(500 * ms)})
